@@ -344,8 +344,11 @@ prop(
           "same request with a known client certificate is the existence reference (status other than 404/405); oracle = fixed "
           "report-collector allow-list, everything else that exists must answer 401 without a verified identity and must not reach the "
           "request handler; record-stream routes additionally: the stream is filed under the certificate's identity, never under the "
-          "header's (TLS), and under the header's with TLS off; a case is distinct by (server, method, template, variant, identity mode, "
-          "header value) and non-trivial when a response was received and judged"),
+          "header's (TLS), and under the header's with TLS off; all loopback cases run against both ways a listener comes to be in "
+          "IpaHttpServer::start_on: pre-bound listener handed in (TestServer) and listener = None (a second IpaHttpServer on the same "
+          "transport with ServerConfig.port = None that binds by itself, as bin/helper.rs does), i.e. all four (disable_https, listener) "
+          "arms for both flavours; a case is distinct by (server, method, template, variant, identity mode, header value, start mode) "
+          "and non-trivial when a response was received and judged"),
     assumptions=["routes are declared with the repository's idiom (AXUM_PATH constants or literals in .route(..) inside functions returning "
                  "Router reachable from handlers::mpc_router / shard_router); anything the scanner cannot follow makes the check inconclusive",
                  "report-collector allow-list (GET /echo, GET /metrics, POST /query, POST /query/:query_id/input, GET /query/:query_id, "
@@ -354,9 +357,10 @@ prop(
                  "TestServer topology: one ring, one shard per helper, the repository's test certificates; HTTP/2 clients (IpaHttpClient)",
                  "connection errors and timeouts (30 s per request) are reported as inconclusive, never as violations"],
     shards={"quick": 8, "thorough": 16},
-    min_evaluations={"quick": 2000, "thorough": 20000},
+    min_evaluations={"quick": 4000, "thorough": 40000},
     must_see=[("routes", 13), ("protected_routes", 6), ("allowed_routes", 8), ("routes_confirmed", 14), ("binding_ok", 10),
-              ("binding_refused_ok", 5), ("status_classes", 20)],
+              ("binding_refused_ok", 5), ("status_classes", 20), ("start_modes", 8), ("judged_ok_on_self_bound_listener", 1000),
+              ("binding_ok_on_self_bound_listener", 5), ("binding_refused_ok_on_self_bound_listener", 3)],
     watchdog_s={"quick": 600, "thorough": 1800},
     pre_run=_routes.pre_run,
 )
